@@ -320,7 +320,9 @@ func (h *Handler) proxy(down *layer4.Connection, upConns []net.Conn) {
 		// intentional closure by setting this flag.
 		downClosed.Store(true)
 		for _, up := range upConns {
-			if conn, ok := up.(closeWriter); ok {
+			// a unixgram socket offers CloseWrite() as well, but shutting down
+			// its writing side never ends the reads: close it like a UDP socket
+			if conn, ok := up.(closeWriter); ok && !isDatagram(up) {
 				_ = conn.CloseWrite()
 			} else {
 				_ = up.Close()
@@ -339,6 +341,17 @@ func (h *Handler) proxy(down *layer4.Connection, upConns []net.Conn) {
 
 	// Wait for reading from the downstream connection, if possible.
 	<-downConnClosedCh
+}
+
+// isDatagram reports whether conn is a datagram socket, on which end-of-stream can't be signalled.
+func isDatagram(conn net.Conn) bool {
+	if addr := conn.RemoteAddr(); addr != nil {
+		switch addr.Network() {
+		case "udp", "udp4", "udp6", "unixgram":
+			return true
+		}
+	}
+	return false
 }
 
 // countFailure is used with passive health checks. It
